@@ -31,6 +31,38 @@ pub(crate) mod verif_kani {
             assert!(!f.is_numeric_field() && !f.is_datetime_field(), "OBL C05.numeric.classification: text column compared as string");
         }
     }
+    // ---- C11: documented column aliases and letter case (docs/usage.md column table) ----
+    macro_rules! falias {
+        ($h:ident, $expect:expr, $($sp:expr),+) => {
+            #[kani::proof]
+            #[kani::unwind(16)]
+            fn $h() {
+                kani::cover!(true);
+                $( assert!(Field::from_str($sp) == Ok($expect), concat!("OBL C11.alias.field: spelling ", $sp)); )+
+            }
+        };
+    }
+    falias!(c11_field_ext, Field::Extension, "ext", "extension", "EXT", "Extension");
+    falias!(c11_field_dir, Field::Directory, "dir", "dirname", "directory", "DIR", "DirName");
+    falias!(c11_field_fsize, Field::FormattedSize, "fsize", "hsize", "FSIZE");
+    falias!(c11_field_pipe, Field::IsPipe, "is_pipe", "is_fifo", "IS_FIFO");
+    falias!(c11_field_char, Field::IsCharacterDevice, "is_char", "is_character", "IS_CHAR");
+    falias!(c11_field_caps, Field::Capabilities, "capabilities", "caps", "CAPS");
+    falias!(c11_field_exif, Field::ExifGpsLongitude, "exif_longitude", "exif_lng", "exif_lon", "EXIF_LON");
+    falias!(c11_field_exif2, Field::ExifGpsLatitude, "exif_latitude", "exif_lat");
+    falias!(c11_field_exif3, Field::ExifGpsAltitude, "exif_altitude", "exif_alt");
+    falias!(c11_field_mp3a, Field::Title, "mp3_title", "title", "TITLE");
+    falias!(c11_field_mp3b, Field::Album, "mp3_album", "album");
+    falias!(c11_field_mp3c, Field::Artist, "mp3_artist", "artist");
+    falias!(c11_field_mp3d, Field::Genre, "mp3_genre", "genre");
+    falias!(c11_field_mp3e, Field::Freq, "mp3_freq", "freq");
+    falias!(c11_field_mp3f, Field::Bitrate, "mp3_bitrate", "bitrate");
+    falias!(c11_field_sha, Field::Sha256, "sha2_256", "sha256", "SHA256");
+    falias!(c11_field_sha2, Field::Sha512, "sha2_512", "sha512");
+    falias!(c11_field_sha3, Field::Sha3, "sha3_512", "sha3");
+    falias!(c11_field_case, Field::Name, "name", "NAME", "Name", "nAmE");
+    falias!(c11_field_case2, Field::Size, "size", "SIZE", "Size");
+
     #[kani::proof]
     fn canary_field_must_fail() {
         let k: u8 = kani::any();
